@@ -33,7 +33,7 @@ theorem lookup_none {m : FlowMap} {p : Pkt} (h : lookup m p = none) :
 theorem stepFound_data (P : Parsers ρ σ) (m : FlowMap) (p : Pkt) (f : TcpFlow) (ic : Bool)
     (hp : p.payload.isEmpty = false) :
     let k := if ic then p.key else p.key.rev
-    let x := dispatch P f ic p
+    let x := dispatch P (noteSynAck f ic p) ic p
     (stepFound P m p f ic).request = x.2.1 ∧ (stepFound P m p f ic).response = x.2.2 ∧
     (stepFound P m p f ic).stored = some k ∧ (stepFound P m p f ic).opened = false ∧
     ((stepFound P m p f ic).map = (m.set k x.1).erase k ∨ (stepFound P m p f ic).map = m.set k x.1) := by
@@ -49,8 +49,8 @@ theorem stepFound_data (P : Parsers ρ σ) (m : FlowMap) (p : Pkt) (f : TcpFlow)
 theorem stepFound_empty (P : Parsers ρ σ) (m : FlowMap) (p : Pkt) (f : TcpFlow) (ic : Bool)
     (hp : p.payload.isEmpty = true) :
     (stepFound P m p f ic).request = none ∧ (stepFound P m p f ic).response = none ∧
-    (stepFound P m p f ic).stored = none ∧ (stepFound P m p f ic).opened = false ∧
-    (stepFound P m p f ic).map = m := by
+    (stepFound P m p f ic).stored = some (if ic then p.key else p.key.rev) ∧ (stepFound P m p f ic).opened = false ∧
+    (stepFound P m p f ic).map = m.set (if ic then p.key else p.key.rev) (noteSynAck f ic p) := by
   unfold stepFound; simp [hp]
 
 theorem get_after_found (m : FlowMap) (k : FlowKey) (v : TcpFlow) (m' : FlowMap)
@@ -67,7 +67,7 @@ theorem step_request (P : Parsers ρ σ) (m : FlowMap) (p : Pkt) (r : ρ)
     (step P m p).stored = some p.key ∧ (step P m p).opened = false ∧ (step P m p).response = none ∧
     ClientDone (step P m p).map p.key ∧
     ∃ f, m.get p.key = some f ∧ f.clientParsed = false ∧
-      P.request (fullData (f.clientData ++ [⟨p.seq, p.payload⟩])) = some r := by
+      P.request (fullData (some f.clientIsn) (f.clientData ++ [⟨p.seq, p.payload⟩])) = some r := by
   unfold step at h ⊢
   cases hl : lookup m p with
   | none =>
@@ -81,11 +81,12 @@ theorem step_request (P : Parsers ρ σ) (m : FlowMap) (p : Pkt) (r : ρ)
     | false =>
       obtain ⟨h1, h2, h3, h4, h5⟩ := stepFound_data P m p f ic hp
       rw [h1] at h
-      obtain ⟨hic, hcp, hdone, hres, hparse⟩ := dispatch_request P f ic p r h
+      obtain ⟨hic, hcp, hdone, hres, hparse⟩ := dispatch_request P _ ic p r h
       subst hic
+      rw [noteSynAck_client] at hcp hparse hdone hres h5
       simp only [if_true] at h3 h5
       obtain ⟨hg, _⟩ := get_after_found m p.key _ _ h5
-      refine ⟨h3, h4, by rw [h2]; exact hres, ?_, f, by simpa using (lookup_some hl).1, hcp, hparse⟩
+      refine ⟨h3, h4, by rw [h2, noteSynAck_client]; exact hres, ?_, f, by simpa using (lookup_some hl).1, hcp, hparse⟩
       intro f' hf'
       rcases hg with hg | hg
       · rw [hg] at hf'; simp at hf'
@@ -94,10 +95,10 @@ theorem step_request (P : Parsers ρ σ) (m : FlowMap) (p : Pkt) (r : ρ)
 /-- a response report -/
 theorem step_response (P : Parsers ρ σ) (m : FlowMap) (p : Pkt) (s : σ)
     (h : (step P m p).response = some s) :
-    ∃ k f, (step P m p).stored = some k ∧ (step P m p).opened = false ∧ (step P m p).request = none ∧
+    ∃ k f ic, (step P m p).stored = some k ∧ (step P m p).opened = false ∧ (step P m p).request = none ∧
       ServerDone (step P m p).map k ∧ m.get k = some f ∧ f.serverParsed = false ∧
       (k = p.key.rev ∨ (k = p.key ∧ ¬ (p.srcIp = f.clientIp ∧ p.srcPort = f.clientPort))) ∧
-      P.response (fullData (f.serverData ++ [⟨p.seq, p.payload⟩])) = some s := by
+      P.response (fullData (noteSynAck f ic p).serverIsn (f.serverData ++ [⟨p.seq, p.payload⟩])) = some s := by
   unfold step at h ⊢
   cases hl : lookup m p with
   | none =>
@@ -111,9 +112,13 @@ theorem step_response (P : Parsers ρ σ) (m : FlowMap) (p : Pkt) (s : σ)
     | false =>
       obtain ⟨h1, h2, h3, h4, h5⟩ := stepFound_data P m p f ic hp
       rw [h2] at h
-      obtain ⟨hsp, hdone, hreq, hnc, hparse⟩ := dispatch_response P f ic p s h
+      obtain ⟨hsp, hdone, hreq, hnc, hparse⟩ := dispatch_response P _ ic p s h
+      obtain ⟨nf1, nf2, _, nf4, nf5, _, nf7, _, _⟩ := noteSynAck_fields f ic p
+      rw [nf2] at hsp
+      rw [nf4] at hparse
+      rw [nf5, nf7] at hnc
       obtain ⟨hg, _⟩ := get_after_found m _ _ _ h5
-      refine ⟨_, f, h3, h4, by rw [h1]; exact hreq, ?_, (lookup_some hl).1, hsp, ?_, hparse⟩
+      refine ⟨_, f, ic, h3, h4, by rw [h1]; exact hreq, ?_, (lookup_some hl).1, hsp, ?_, hparse⟩
       · intro f' hf'
         rcases hg with hg | hg
         · rw [hg] at hf'; simp at hf'
@@ -164,73 +169,81 @@ theorem step_frame (P : Parsers ρ σ) (m : FlowMap) (p : Pkt) (k : FlowKey)
     obtain ⟨f, ic⟩ := fi
     simp only [hl] at h ⊢
     cases hp : p.payload.isEmpty with
-    | true => rw [(stepFound_empty P m p f ic hp).2.2.2.2]
+    | true =>
+      obtain ⟨_, _, h3, _, h5⟩ := stepFound_empty P m p f ic hp
+      rw [h3] at h
+      have hk : k ≠ (if ic then p.key else p.key.rev) := fun e => h (by rw [e])
+      rw [h5]; exact FlowMap.get_set_ne _ _ _ _ hk
     | false =>
       obtain ⟨_, _, h3, _, h5⟩ := stepFound_data P m p f ic hp
       rw [h3] at h
       have hk : k ≠ (if ic then p.key else p.key.rev) := fun e => h (by rw [e])
       exact (get_after_found m _ _ _ h5).2 k hk
 
+/-- what a step on a stored flow (not opening one) leaves under its key: nothing, or the flow
+after the SYN-ACK note and the direction dispatch -/
+theorem step_found_shape (P : Parsers ρ σ) (m : FlowMap) (p : Pkt) (k : FlowKey)
+    (hs : (step P m p).stored = some k) (ho : (step P m p).opened = false) :
+    ∃ f ic, m.get k = some f ∧
+      (((step P m p).request = none ∧ (step P m p).response = none ∧
+          (step P m p).map.get k = some (noteSynAck f ic p)) ∨
+       ((step P m p).request = (dispatch P (noteSynAck f ic p) ic p).2.1 ∧
+        (step P m p).response = (dispatch P (noteSynAck f ic p) ic p).2.2 ∧
+        ((step P m p).map.get k = none ∨
+         (step P m p).map.get k = some (dispatch P (noteSynAck f ic p) ic p).1))) := by
+  unfold step at hs ho ⊢
+  cases hl : lookup m p with
+  | none =>
+    simp only [hl] at hs ho
+    unfold stepNew at hs ho
+    split at hs
+    · rename_i h; simp [h] at ho
+    · simp at hs
+  | some fi =>
+    obtain ⟨f, ic⟩ := fi
+    simp only [hl] at hs ho ⊢
+    cases hp : p.payload.isEmpty with
+    | true =>
+      obtain ⟨h1, h2, h3, _, h5⟩ := stepFound_empty P m p f ic hp
+      rw [h3] at hs; simp at hs
+      refine ⟨f, ic, by rw [← hs]; exact (lookup_some hl).1, Or.inl ⟨h1, h2, ?_⟩⟩
+      rw [h5, hs]; exact FlowMap.get_set_eq _ _ _
+    | false =>
+      obtain ⟨h1, h2, h3, _, h5⟩ := stepFound_data P m p f ic hp
+      rw [h3] at hs; simp at hs
+      rw [hs] at h5
+      refine ⟨f, ic, by rw [← hs]; exact (lookup_some hl).1, Or.inr ⟨h1, h2, (get_after_found m k _ _ h5).1⟩⟩
+
 /-- a step that works on a stored flow (does not open one) keeps the done-flags set -/
 theorem step_client_mono (P : Parsers ρ σ) (m : FlowMap) (p : Pkt) (k : FlowKey)
     (hs : (step P m p).stored = some k) (ho : (step P m p).opened = false) (hd : ClientDone m k) :
     ClientDone (step P m p).map k ∧ (step P m p).request = none := by
-  unfold step at hs ho ⊢
-  cases hl : lookup m p with
-  | none =>
-    simp only [hl] at hs ho
-    unfold stepNew at hs ho
-    split at hs
-    · rename_i h; simp [h] at ho
-    · simp at hs
-  | some fi =>
-    obtain ⟨f, ic⟩ := fi
-    simp only [hl] at hs ho ⊢
-    cases hp : p.payload.isEmpty with
-    | true => rw [(stepFound_empty P m p f ic hp).2.2.1] at hs; simp at hs
-    | false =>
-      obtain ⟨h1, h2, h3, h4, h5⟩ := stepFound_data P m p f ic hp
-      rw [h3] at hs; simp at hs
-      have hf : m.get k = some f := by rw [← hs]; exact (lookup_some hl).1
-      have hcp := hd f hf
-      obtain ⟨hm1, hm2⟩ := dispatch_client_mono P f ic p hcp
-      rw [hs] at h5
-      obtain ⟨hg, _⟩ := get_after_found m k _ _ h5
-      refine ⟨?_, by rw [h1]; exact hm2⟩
-      intro f' hf'
-      rcases hg with hg | hg
-      · rw [hg] at hf'; simp at hf'
-      · rw [hg] at hf'; simp at hf'; subst hf'; exact hm1
+  obtain ⟨f, ic, hf, hsh⟩ := step_found_shape P m p k hs ho
+  have hcp : (noteSynAck f ic p).clientParsed = true := by rw [(noteSynAck_fields f ic p).1]; exact hd f hf
+  rcases hsh with ⟨h1, _, h3⟩ | ⟨h1, _, h3⟩
+  · refine ⟨?_, h1⟩
+    intro f' hf'; rw [h3] at hf'; simp at hf'; subst hf'; exact hcp
+  · obtain ⟨hm1, hm2⟩ := dispatch_client_mono P _ ic p hcp
+    refine ⟨?_, by rw [h1]; exact hm2⟩
+    intro f' hf'
+    rcases h3 with hg | hg
+    · rw [hg] at hf'; simp at hf'
+    · rw [hg] at hf'; simp at hf'; subst hf'; exact hm1
 
 theorem step_server_mono (P : Parsers ρ σ) (m : FlowMap) (p : Pkt) (k : FlowKey)
     (hs : (step P m p).stored = some k) (ho : (step P m p).opened = false) (hd : ServerDone m k) :
     ServerDone (step P m p).map k ∧ (step P m p).response = none := by
-  unfold step at hs ho ⊢
-  cases hl : lookup m p with
-  | none =>
-    simp only [hl] at hs ho
-    unfold stepNew at hs ho
-    split at hs
-    · rename_i h; simp [h] at ho
-    · simp at hs
-  | some fi =>
-    obtain ⟨f, ic⟩ := fi
-    simp only [hl] at hs ho ⊢
-    cases hp : p.payload.isEmpty with
-    | true => rw [(stepFound_empty P m p f ic hp).2.2.1] at hs; simp at hs
-    | false =>
-      obtain ⟨h1, h2, h3, h4, h5⟩ := stepFound_data P m p f ic hp
-      rw [h3] at hs; simp at hs
-      have hf : m.get k = some f := by rw [← hs]; exact (lookup_some hl).1
-      have hcp := hd f hf
-      obtain ⟨hm1, hm2⟩ := dispatch_server_mono P f ic p hcp
-      rw [hs] at h5
-      obtain ⟨hg, _⟩ := get_after_found m k _ _ h5
-      refine ⟨?_, by rw [h2]; exact hm2⟩
-      intro f' hf'
-      rcases hg with hg | hg
-      · rw [hg] at hf'; simp at hf'
-      · rw [hg] at hf'; simp at hf'; subst hf'; exact hm1
+  obtain ⟨f, ic, hf, hsh⟩ := step_found_shape P m p k hs ho
+  have hcp : (noteSynAck f ic p).serverParsed = true := by rw [(noteSynAck_fields f ic p).2.1]; exact hd f hf
+  rcases hsh with ⟨_, h2, h3⟩ | ⟨_, h2, h3⟩
+  · refine ⟨?_, h2⟩
+    intro f' hf'; rw [h3] at hf'; simp at hf'; subst hf'; exact hcp
+  · obtain ⟨hm1, hm2⟩ := dispatch_server_mono P _ ic p hcp
+    refine ⟨?_, by rw [h2]; exact hm2⟩
+    intro f' hf'
+    rcases h3 with hg | hg
+    · rw [hg] at hf'; simp at hf'
+    · rw [hg] at hf'; simp at hf'; subst hf'; exact hm1
 
 /-- flows are stored under their own endpoints -/
 def KeyInv (m : FlowMap) : Prop :=
@@ -249,32 +262,17 @@ theorem step_keyInv (P : Parsers ρ σ) (m : FlowMap) (p : Pkt) (hi : KeyInv m) 
       rw [hf'] at hf; simp at hf; subst hf
       exact ⟨a, c, b, d⟩
     | false =>
-      -- the step worked on the flow stored under k
-      unfold step at hs ho hf
-      cases hl : lookup m p with
-      | none =>
-        simp only [hl] at hs ho
-        unfold stepNew at hs ho
-        split at hs
-        · rename_i h; simp [h] at ho
-        · simp at hs
-      | some fi =>
-        obtain ⟨f0, ic⟩ := fi
-        simp only [hl] at hs ho hf
-        cases hp : p.payload.isEmpty with
-        | true => rw [(stepFound_empty P m p f0 ic hp).2.2.1] at hs; simp at hs
-        | false =>
-          obtain ⟨_, _, h3, _, h5⟩ := stepFound_data P m p f0 ic hp
-          rw [h3] at hs; simp at hs
-          have hf0 : m.get k = some f0 := by rw [← hs]; exact (lookup_some hl).1
-          rw [hs] at h5
-          obtain ⟨hg, _⟩ := get_after_found m k _ _ h5
-          rcases hg with hg | hg
-          · rw [hg] at hf; simp at hf
-          · rw [hg] at hf; simp at hf; subst hf
-            obtain ⟨a, b, c, d⟩ := dispatch_endpoints P f0 ic p
-            obtain ⟨a', b', c', d'⟩ := hi k f0 hf0
-            exact ⟨a.trans a', b.trans b', c.trans c', d.trans d'⟩
+      obtain ⟨f0, ic, hf0, hsh⟩ := step_found_shape P m p k hs ho
+      obtain ⟨a', b', c', d'⟩ := hi k f0 hf0
+      obtain ⟨_, _, _, _, n5, n6, n7, n8, _⟩ := noteSynAck_fields f0 ic p
+      rcases hsh with ⟨_, _, h3⟩ | ⟨_, _, h3⟩
+      · rw [h3] at hf; simp at hf; subst hf
+        exact ⟨n5.trans a', n6.trans b', n7.trans c', n8.trans d'⟩
+      · rcases h3 with hg | hg
+        · rw [hg] at hf; simp at hf
+        · rw [hg] at hf; simp at hf; subst hf
+          obtain ⟨a, b, c, d⟩ := dispatch_endpoints P (noteSynAck f0 ic p) ic p
+          exact ⟨(a.trans n5).trans a', (b.trans n6).trans b', (c.trans n7).trans c', (d.trans n8).trans d'⟩
   · rw [step_frame P m p k hs] at hf
     exact hi k f hf
 
